@@ -406,5 +406,25 @@ func s35Shapes(thorough bool) []s35Shape {
 			}
 		}
 	}
+	// descriptors whose length byte is at the top of its range (the loop's
+	// byte accounting must not be done in a byte): with the two smallest
+	// commands only, pointer_field 0
+	long := []struct {
+		name string
+		d    []s35Desc
+	}{
+		{"foreign descriptor of 254 bytes", []s35Desc{{foreign: true, tag: 0x00, body: 254}}},
+		{"foreign descriptor of 255 bytes, then a segmentation descriptor", []s35Desc{{foreign: true, tag: 0x01, body: 255}, plain}},
+		{"segmentation descriptor of 255 bytes (240-byte UPID)", []s35Desc{seg(func(d *s35Desc) { d.upidLen = 240 })}},
+		{"segmentation descriptor of 254 bytes (239-byte UPID), then a foreign one", []s35Desc{seg(func(d *s35Desc) { d.upidLen = 239 }), {foreign: true, tag: 0x00, body: 2}}},
+	}
+	for _, c := range cmds[:2] {
+		for _, l := range long {
+			s := c.s
+			s.descs = l.d
+			s.name = fmt.Sprintf("%s; %s; pointer_field 0", c.name, l.name)
+			out = append(out, s)
+		}
+	}
 	return out
 }
